@@ -124,14 +124,23 @@ def _g12(facts, rep):
         L = it_local(kt)
         if L is None and kt[0] == 'field' and kt[2] in ('0', '1'):
             L, comp = it_local(kt[1]), kt[2]
-        srcs = src_of.get(L, set()) if L is not None else set()
         RK, TL = 'rank(%s)' % Hs, 'len(tors(%s))' % Hs
+        item_t = None
+        if L is None and kt[0] == 'field' and kt[2] == '0' and kt[1][0] == 'bin' and kt[1][1] == 'AddWithOverflow':
+            # k = rank + j with (j, a) from tors.iter().enumerate()
+            for x_, y_ in ((kt[1][2], kt[1][3]), (kt[1][3], kt[1][2])):
+                y_ = strip(y_)
+                if nk(x_) == RK and y_[0] == 'field' and y_[2] == '0' and it_local(y_[1]) is not None:
+                    L, comp, item_t = it_local(y_[1]), 'enum', nk(y_[1])
+        srcs = src_of.get(L, set()) if L is not None else set()
         dom = None
         if srcs == {'into_iter(Range::Range{start: 0, end: AddWithOverflow(%s, %s).0})' % (RK, TL)} and comp is None:
             dom = 'unified'
         elif srcs == {'into_iter(Range::Range{start: 0, end: %s})' % RK} and comp is None:
             dom = 'free'
         elif comp == '0' and srcs in ({'into_iter(zip(RangeFrom::RangeFrom{start: %s}, iter(tors(%s))))' % (RK, Hs)}, {'into_iter(zip(RangeFrom::RangeFrom{start: %s}, iter(deref(tors(%s)))))' % (RK, Hs)}):
+            dom = 'tors'
+        elif comp == 'enum' and srcs in ({'into_iter(enumerate(iter(tors(%s))))' % Hs}, {'into_iter(enumerate(iter(deref(tors(%s)))))' % Hs}):
             dom = 'tors'
         elif len(srcs) == 1 and re.match(r'into_iter\(Range::Range\{start: \d+, end: (AddWithOverflow|SubWithOverflow|rank|len|tors|next|IT|Some|[0-9]|[()., ])*\}\)$', next(iter(srcs))) and comp is None:
             probs.append('generators are enumerated over %s, expected 0 .. rank + #tors' % next(iter(srcs))[10:-1])
@@ -180,7 +189,7 @@ def _g12(facts, rep):
             want_t = ['tors(%s)[SubWithOverflow(%s, %s).0]' % (Hs, Ks, RK)]
         else:
             is_free = dom == 'free'
-            want_t = [Ks[:-1] + '1']
+            want_t = [Ks[:-1] + '1'] if item_t is None else [item_t + '.1']
         want_t = want_t + ['clone(%s)' % x for x in want_t]
         if len(idx_push) != 1 or idx_push[0][1] != Ks:
             probs.append('a %s generator does not record its own index exactly once under (i, q_deg(gen k)): index pushes %s' % ('free' if is_free else 'torsion', [x[1][:60] for x in idx_push]))
